@@ -34,6 +34,15 @@ for sid in ids:
         r[p] = {'exit': rc, 'detected': rc == 1 and bool(v), 'with_failing_input': any('no-failing-input-found' not in l for l in v),
                 'wall_s': round(time.time() - t0, 1)}
     res[sid] = r
+    # refresh the archived record: what the CURRENT checks say about this change
+    meta.setdefault('checks', {})
+    for p, c in r.items():
+        old = meta['checks'].get(p, {})
+        old.update({'exit': c['exit'], 'detected': c['detected'], 'with_failing_input': c['with_failing_input'], 'wall_s': c['wall_s'],
+                    'rechecked': time.strftime('%Y-%m-%d %H:%M UTC', time.gmtime())})
+        old.pop('lines', None); old.pop('first_replay', None)
+        meta['checks'][p] = old
+    json.dump(meta, open(d + '/meta.json', 'w'), indent=1, default=str)
     print(sid, ' '.join('%s:%s%s' % (p, 'DETECTED' if c['detected'] else 'MISSED', '' if c['with_failing_input'] or not c['detected'] else '(no-input)') for p, c in r.items()), flush=True)
     json.dump(res, open('/verif/.cache/seed_recheck.json', 'w'), indent=1)
 sh('git -C %s checkout -- . && git -C %s clean -fdq' % (WT, WT))
